@@ -66,6 +66,10 @@ def generate(seed: int, tier: str) -> Dict[str, Any]:
     raw.setdefault("t3", {})["reflection"] = {"backend": backend, "summary_tokens": r.choice([0, 1, 2, 5, 128]), "embed": r.chance(0.7),
                                              "topk_snippets": r.choice([0, 1, 3])}
     raw["scheduler"] = {"budgets": {"ops_reflection": r.choice([0, 1, 5]), "time_ms_reflection": r.choice([1, 50, 6000])}}
+    if r.chance(0.3):
+        # the scheduler on, with budgets no turn can exhaust (slices are counted on the context)
+        raw["scheduler"].update({"enabled": True, "quantum_ms": 10**9})
+        raw["scheduler"]["budgets"]["wall_ms"] = 2 * 10**9
     if backend == "llm":
         raw["t3"]["llm"] = {"provider": "fixture", "fixtures": {"enabled": True, "path": "FIXTURE_PATH"}}
     ro = rng.stream("ops")
@@ -329,6 +333,19 @@ def execute(program: Dict[str, Any]) -> Dict[str, Any]:
                 viol.append({"cls": "reflection", "sig": "id-or-timestamp-depends-on-wall-clock",
                              "detail": "turn op#%s: %s under the steady clock, %s under %s" % (k, ea[k], eb[k], oc)})
                 break
+    if not viol and any(op.get("reuse_ctx") for op in program["ops"]):
+        # id and timestamp are functions of agent, turn, slot and text (and the turn's logical time): a driver that keeps one
+        # context object must get the entries a driver with a fresh context per turn gets
+        fresh = dict(program, ops=[{k: v for k, v in op.items() if k != "reuse_ctx"} for op in program["ops"]])
+        f = _run(fresh, SimClock(None, "steady"), None, False)
+        ea = {(e[0], e[3]): e for e in a["entries"]}
+        ef = {(e[0], e[3]): e for e in f["entries"]}
+        for k in sorted(set(ea) & set(ef), key=repr):
+            if ea[k] != ef[k]:
+                viol.append({"cls": "reflection", "sig": "id-or-timestamp-depends-on-context-history",
+                             "detail": "turn op#%s: %s with one context kept across turns, %s with a fresh context per turn" % (k[0], ea[k], ef[k])})
+                break
+        stats["kept_context_runs"] = stats.get("kept_context_runs", 0) + 1
     nontrivial = bool(stats.get("reflection_writes") or stats.get("failing_reflections") or stats.get("gate_closed"))
     faults = {"over_budget": stats.get("over_budget", 0), "failing": stats.get("failing_reflections", 0)}
     for op in program["ops"]:
